@@ -78,7 +78,7 @@ impl Default for HistCfg {
             all_adaptive: false,
             lifecycle_ext: false,
             delegates: false,
-            spacings: vec![1, 8, 64, 128, 256, 32768, 32896],
+            spacings: vec![1, 8, 64, 120, 128, 256, 32768, 32896],
         }
     }
 }
@@ -196,7 +196,12 @@ impl Hist {
                 );
                 // the fee-tier index is a free label: also on the other side of 2^15 than the tick spacing
                 // (full-range-only is a matter of the spacing, never of the index)
-                let idx = if rnd::chance(&mut w.r, 1, 3) { 40_000 } else { 1024 } + pi as u16 * 7 + sp % 5;
+                let idx = match w.r.gen_range(0..4) {
+                    0 => 40_000 + pi as u16 * 7 + sp % 5,
+                    // small indexes: 1, 2, 8, 32 by pool number (never the spacing itself)
+                    1 => { let i = [1u16, 2, 8, 32][pi % 4]; if i == sp { i + 1 } else { i } }
+                    _ => 1024 + pi as u16 * 7 + sp % 5,
+                };
                 let now = w.now() as u64;
                 let enable = match w.r.gen_range(0..6) {
                     0 => Some(now + *rnd::pick(&mut w.r, &[1u64, 60, 3600, 100_000])),
@@ -309,8 +314,30 @@ impl Hist {
         ix
     }
 
+    /// One swap / two-hop in twenty-five names the pool's own vault as the trader's account on the side that pays in
+    /// (same mint, so the account constraint is met): the token program refuses the transfer, so the instruction fails.
+    fn maybe_vault_as_trader_account(w: &mut World, mut ix: Ix, acc: &mut Acc) -> Ix {
+        if !ix.name.contains("swap") || !rnd::chance(&mut w.r, 1, 25) {
+            return ix;
+        }
+        // only the side that pays IN (naming the vault on the receiving side is the trader's business: a self-transfer)
+        let pair: Option<(&str, &str)> = match ix.name {
+            "swap" | "swap_v2" if ix.data.len() > 41 => Some(if ix.data[41] != 0 { ("token_owner_account_a", "token_vault_a") } else { ("token_owner_account_b", "token_vault_b") }),
+            "two_hop_swap_v2" => Some(("token_owner_account_input", "token_vault_one_input")),
+            _ => None,
+        };
+        if let Some((own, vault)) = pair {
+            if let (Some(i), Some(j)) = (ix.slot(own), ix.slot(vault)) {
+                ix.metas[i].key = ix.metas[j].key;
+                acc.count("swaps_naming_a_vault_as_the_traders_account");
+            }
+        }
+        ix
+    }
+
     pub fn step(&mut self, w: &mut World, ix: Ix, monitors: &mut [Box<dyn Monitor>], acc: &mut Acc) -> Obs {
         let ix = Self::maybe_sibling_vault(w, ix, acc);
+        let ix = Self::maybe_vault_as_trader_account(w, ix, acc);
         let ix = Self::maybe_empty_slice(w, ix, acc);
         let obs = w.exec(ix);
         acc.evaluations += 1;
@@ -616,6 +643,12 @@ impl Hist {
             (MAX_TICK_INDEX as i64).div_euclid(tia) * tia + tia,
             t.div_euclid(tia) * tia + 1,
         ];
+        // (a pool's fee-tier index is a label, not a spacing: starts aligned to 88 x index instead of 88 x spacing)
+        let fti = w.pools[p].fee_tier_index as i64;
+        if fti > 0 && fti != sp {
+            cands.push(t.div_euclid(88 * fti) * 88 * fti);
+            cands.push((t.div_euclid(88 * fti) + 1) * 88 * fti);
+        }
         cands.retain(|s| s.rem_euclid(tia) != 0 && *s > i32::MIN as i64 / 2 && *s < i32::MAX as i64 / 2);
         if cands.is_empty() {
             return;
